@@ -22,6 +22,7 @@ EXPLANATION = (
     "single point of use: kernel / metric / parameter dictionaries / ovo are read only by get_gemini, compute_affinity, "
     "_compute_kernel and evaluate; (d) the user's y (precomputed affinity) is passed through by fit, fit_predict, score, path and "
     "the validation score. Not decided: numerical equality of fitted models.")
+ADOPT = [("C12", ["C12-a"], "kernel / metric / GEMINI choices reach the objective only if the constructor stores or forwards them")]
 ASSUMPTIONS = ["pairwise_kernels / pairwise_distances implement the named kernels and metrics"]
 
 FAMILY = {"MMD": ("MMDGEMINI", "pairwise_kernels"), "Wasserstein": ("WassersteinGEMINI", "pairwise_distances")}
